@@ -16,6 +16,7 @@ pub struct Hist {
     pub applied: Vec<Vec<Vec<u8>>>,      // per replica: v1 updates in the order they were applied (own ones included)
     pub msgs: Vec<(usize, Vec<u8>, Vec<u8>)>,
     pub svs: Vec<Vec<Vec<u8>>>,          // per replica: encoded state vectors recorded along the way (stale vectors)
+    pub applied_at: Vec<Vec<usize>>,     // per replica: how many updates it had applied when the corresponding vector was recorded
     pub script: Vec<String>,
     pub causal: Vec<BTreeSet<usize>>,
 }
@@ -25,7 +26,7 @@ pub fn gen_history(r: &mut Rng, cfgs: &[DocCfg], steps: u64, fifo: bool, ecfg: &
     let n = cfgs.len();
     let ids = [1u64, 2, 3, 77, (1u64 << 32) + 5];
     let reps: Vec<Replica> = (0..n).map(|i| Replica::new(ids[i], cfgs[i])).collect();
-    let mut h = Hist { reps, applied: vec![vec![]; n], msgs: vec![], svs: vec![vec![]; n], script: vec![], causal: vec![BTreeSet::new(); n] };
+    let mut h = Hist { reps, applied: vec![vec![]; n], msgs: vec![], svs: vec![vec![]; n], applied_at: vec![vec![]; n], script: vec![], causal: vec![BTreeSet::new(); n] };
     let mut delivered: Vec<BTreeSet<usize>> = vec![BTreeSet::new(); n];
     let mut tag = 0u64;
     for _ in 0..steps {
@@ -54,6 +55,7 @@ pub fn gen_history(r: &mut Rng, cfgs: &[DocCfg], steps: u64, fifo: bool, ecfg: &
         }
         let sv = h.reps[i].doc.transact().state_vector().encode_v1();
         h.svs[i].push(sv);
+        let k = h.applied[i].len(); h.applied_at[i].push(k);
     }
     h
 }
@@ -83,7 +85,7 @@ fn has_gap(doc: &Doc) -> bool { let vs = store_dump(doc); vs.has_pending || vs.h
 fn c06_case(seed: u64, index: u64, rep: &mut Report) {
     let mut r = Rng::for_case(seed, 106, index);
     let n = r.range(2, 4) as usize;
-    let cfgs: Vec<DocCfg> = (0..n).map(|_| DocCfg::default()).collect();
+    let cfgs: Vec<DocCfg> = (0..n).map(|_| DocCfg { gc: r.chance(1, 3), ..DocCfg::default() }).collect();   // senders / receivers with and without GC
     let st = r.range(5, 14); let h = gen_history(&mut r, &cfgs, st, false, &EditCfg::default());
     let mut fails: Vec<serde_json::Value> = vec![];
     let mut nontrivial = false;
@@ -91,7 +93,7 @@ fn c06_case(seed: u64, index: u64, rep: &mut Report) {
         if a == b { continue; }
         for variant in 0..4u64 {
             let v2 = variant & 1 == 1; let full = variant & 2 == 2;
-            let bb = replay(&h.applied[b], 500 + b as u64, DocCfg::default());
+            let bb = replay(&h.applied[b], 500 + b as u64, cfgs[b]);
             let sv_b0 = bb.doc.transact().state_vector();
             // own current vector, or any older one the peer could legitimately still hold
             let stale = r.chance(1, 3) && !h.svs[b].is_empty();
@@ -109,13 +111,17 @@ fn c06_case(seed: u64, index: u64, rep: &mut Report) {
             let sv_b1 = bb.doc.transact().state_vector();
             let (ids_b, del_b) = idsets(&bb.doc);
             if !sv_le(&sv_b0, &sv_b1) { fails.push(json!({"class": "state-vector-decreased", "ctx": ctx})); }
+            // the receiver cannot hold more than the two of them held together (a full-state update also carries the sender's stash)
+            if !full && !{ let fresh = replay(&h.applied[b], 561 + b as u64, cfgs[b]); let t = fresh.doc.transact(); t.has_missing_updates() } { let (ids_b0, _) = idsets(&replay(&h.applied[b], 560 + b as u64, cfgs[b]).doc);   // (a receiver with a stash of its own may integrate that stash now)
+                let extra: Vec<String> = ids_b.iter().filter(|x| !ids_a.contains(*x) && !ids_b0.contains(*x)).take(8).cloned().collect();
+                if !extra.is_empty() { fails.push(json!({"class": "receiver-holds-ids-nobody-had", "ctx": ctx, "ids": extra})); } }
             if !sv_le(&sv_a, &sv_b1) || !ids_a.is_subset(&ids_b) {
                 // yrs stashes the REST of a client's blocks behind a block whose dependency is missing: content that A had
                 // integrated (because it arrived there in separate updates) can end up in B's stash. Distinguish that
                 // (B reports missing updates and holds the content once the gaps are filled) from content that is really lost.
                 let missing: Vec<String> = ids_a.difference(&ids_b).cloned().collect();
                 let b_pending = bb.doc.transact().has_missing_updates();
-                let probe = replay(&h.applied[b], 550 + b as u64, DocCfg::default());
+                let probe = replay(&h.applied[b], 550 + b as u64, cfgs[b]);
                 let _ = if v2 { probe.apply_v2(&u) } else { probe.apply_v1(&u) };
                 for m in &h.msgs { let _ = probe.apply_v1(&m.1); }
                 let (ids_p, _) = idsets(&probe.doc);
@@ -135,8 +141,8 @@ fn c06_case(seed: u64, index: u64, rep: &mut Report) {
             if idump(&bb.doc) != d1 { fails.push(json!({"class": "self-diff-changed-state", "ctx": ctx})); }
         }
         // repeated exchange in both directions until nothing changes => equal
-        let aa = replay(&h.applied[a], 600 + a as u64, DocCfg::default());
-        let bb = replay(&h.applied[b], 700 + b as u64, DocCfg::default());
+        let aa = replay(&h.applied[a], 600 + a as u64, cfgs[a]);
+        let bb = replay(&h.applied[b], 700 + b as u64, cfgs[b]);
         for _round in 0..4 {
             let (sa, sb) = (aa.doc.transact().state_vector(), bb.doc.transact().state_vector());
             let ua = aa.doc.transact().encode_state_as_update_v1(&sb);
@@ -147,8 +153,10 @@ fn c06_case(seed: u64, index: u64, rep: &mut Report) {
         let pend = aa.doc.transact().has_missing_updates() || bb.doc.transact().has_missing_updates();
         if !pend && public_dump(&aa.doc) != public_dump(&bb.doc) {
             fails.push(json!({"class": "exchange-fixpoint-differs", "a": a, "b": b, "pa": public_dump(&aa.doc), "pb": public_dump(&bb.doc)}));
-        } else if !pend && idump(&aa.doc) != idump(&bb.doc) {
+        } else if !pend && !cfgs[a].gc && !cfgs[b].gc && idump(&aa.doc) != idump(&bb.doc) {
             fails.push(json!({"class": "exchange-fixpoint-differs-internally", "a": a, "b": b}));
+        } else if !pend && idsets(&aa.doc) != idsets(&bb.doc) {
+            fails.push(json!({"class": "exchange-fixpoint-id-sets-differ", "a": a, "b": b}));
         }
     } }
     rep.evaluations += 1;
@@ -192,15 +200,17 @@ fn apply_all(client: u64, us: &[Vec<u8>], v2: bool) -> Replica {
 fn c08_case(seed: u64, index: u64, md: &mut Model, rep: &mut Report) {
     let mut r = Rng::for_case(seed, 108, index);
     let n = r.range(2, 4) as usize;
-    let cfgs: Vec<DocCfg> = (0..n).map(|i| DocCfg { gc: i == 0 && index % 3 == 0, ..DocCfg::default() }).collect();
-    let st = r.range(5, 12); let h = gen_history(&mut r, &cfgs, st, false, &EditCfg::default());
+    let cfgs: Vec<DocCfg> = (0..n).map(|_| DocCfg { gc: r.chance(1, 2), ..DocCfg::default() }).collect();
+    let st = r.range(5, 14); let h = gen_history(&mut r, &cfgs, st, false, &EditCfg::default());
     let mut fails: Vec<serde_json::Value> = vec![];
     let mut disag: Vec<serde_json::Value> = vec![];
     // the update pool: transaction updates, diffs against stale vectors, full states (with Skip / GC blocks)
     let mut pool1: Vec<Vec<u8>> = h.msgs.iter().map(|m| m.1.clone()).collect();
     let mut pool2: Vec<Vec<u8>> = h.msgs.iter().map(|m| m.2.clone()).collect();
+    let mut full_idx: Vec<usize> = vec![];
     for i in 0..n {
         let t = h.reps[i].doc.transact();
+        full_idx.push(pool1.len());
         pool1.push(t.encode_state_as_update_v1(&StateVector::default()));
         pool2.push(t.encode_state_as_update_v2(&StateVector::default()));
         if !h.svs[(i + 1) % n].is_empty() { let pv: &Vec<u8> = r.pick(h.svs[(i + 1) % n].as_slice()); let sv = StateVector::decode_v1(pv.as_slice()).unwrap_or_default(); pool1.push(t.encode_diff_v1(&sv)); pool2.push(t.encode_diff_v2(&sv)); }
@@ -257,22 +267,28 @@ fn c08_case(seed: u64, index: u64, md: &mut Model, rep: &mut Report) {
                 if !ok || visible_only(&sa) != visible_only(&sb) { disag.push(json!({"kind": "model-merge-equivalence", "ctx": ctx, "from_inputs": sa, "from_merged": sb})); }
             }
         }
-        // diff_updates(u, sv) applied to a document whose state vector is sv == applying u
-        let ui = r.below(pool1.len() as u64) as usize;
-        let b = r.below(n as u64) as usize;
+        // diff_updates(u, sv) applied to a document whose state vector is sv == applying u; the documents are earlier states of
+        // the replicas (so that sv can point strictly inside a block - or a collected range - of the update)
+        // (every full state of a replica against every earlier state of every other replica on the first trial, random picks afterwards)
+        let mut picks: Vec<(usize, usize, usize)> = vec![];
+        if trial == 0 { for a in 0..n { for b in 0..n { if a == b { continue; } let mut pts: Vec<usize> = h.applied_at[b].clone(); pts.sort(); pts.dedup(); for upto in pts { picks.push((full_idx[a], b, upto)); } } } }
+        for _ in 0..3 { let b = r.below(n as u64) as usize; picks.push((r.below(pool1.len() as u64) as usize, b, if h.applied_at[b].is_empty() || r.chance(1, 3) { h.applied[b].len() } else { *r.pick(h.applied_at[b].as_slice()) })); }
+        for (ui, b, upto) in picks {
+        if ui >= pool1.len() { continue; }
         for v2 in [false, true] {
             let u = if v2 { &pool2[ui] } else { &pool1[ui] };
-            let d1 = replay(&h.applied[b], 810, DocCfg::default());
-            let d2 = replay(&h.applied[b], 810, DocCfg::default());
+            let d1 = replay(&h.applied[b][..upto], 810, DocCfg::default());
+            let d2 = replay(&h.applied[b][..upto], 810, DocCfg::default());
             let sv = d1.doc.transact().state_vector();
             let du = catch(|| if v2 { yrs::diff_updates_v2(u, &sv.encode_v2()) } else { yrs::diff_updates_v1(u, &sv.encode_v1()) });
             let du = match du { Ok(Ok(x)) => x, Ok(Err(e)) => { fails.push(json!({"class": "diff-error", "error": format!("{e}")})); continue; } Err(p) => { fails.push(json!({"class": "diff-panic", "error": p, "update": hex(u)})); continue; } };
             let _ = if v2 { d1.apply_v2(u) } else { d1.apply_v1(u) };
             let r2 = if v2 { d2.apply_v2(&du) } else { d2.apply_v1(&du) };
             rep.count("c08_diffs");
-            if r2.is_err() || !same_docs(&d1, &d2) {
+            if r2.is_err() || !same_docs(&d1, &d2) || d1.doc.transact().state_vector() != d2.doc.transact().state_vector() {
                 fails.push(json!({"class": "diff-differs-from-apply", "v2": v2, "error": format!("{:?}", r2.err()), "update": hex(u), "diff": hex(&du), "with_update": idump(&d1.doc), "with_diff": idump(&d2.doc)}));
             }
+        }
         }
     }
     // encode_state_vector_from_update on gap-free full states
@@ -304,22 +320,26 @@ fn c13_case(seed: u64, index: u64, rep: &mut Report) {
     let mut r = Rng::for_case(seed, 113, index);
     let n = r.range(1, 3) as usize;
     let fifo = r.chance(2, 3);
-    let reps: Vec<Replica> = (0..n).map(|i| Replica::new([1u64, 2, 3][i], DocCfg::default())).collect();
+    let mut cids = [1u64, 2, 3, 77]; r.shuffle(&mut cids);   // the snapshotting replica is not always the lowest client id
+    let reps: Vec<Replica> = (0..n).map(|i| Replica::new(cids[i], DocCfg::default())).collect();
+    // a third of the cases are "typing" histories: single calls on text / array only, so that runs of one client are
+    // squashed into blocks that later snapshots cut in the middle, next to concurrent siblings of other clients
+    let typing = index % 3 == 0;
     let mut msgs: Vec<(usize, Vec<u8>)> = vec![];
     let mut delivered: Vec<BTreeSet<usize>> = vec![BTreeSet::new(); n];
-    let mut snaps: Vec<(Snapshot, String, bool, usize)> = vec![]; // snapshot, content at that time, gap, step
+    let mut snaps: Vec<(Snapshot, String, bool, usize, usize)> = vec![]; // snapshot, content at that time, gap, step, replica
     let mut script = vec![];
     let mut fails: Vec<serde_json::Value> = vec![];
     let mut tag = 0u64;
-    let ecfg = EditCfg::default();
-    let steps = r.range(6, 18);
+    let ecfg = if typing { EditCfg { map: false, xml: false, nested: false, formatting: false, deletes: true, ..EditCfg::default() } } else { EditCfg::default() };
+    let steps = if typing { r.range(10, 30) } else { r.range(6, 18) };
     for step in 0..steps as usize {
         let i = r.below(n as u64) as usize;
         let mut cand: Vec<usize> = (0..msgs.len()).filter(|m| !delivered[i].contains(m)).collect();
         if fifo { let mut seen = BTreeSet::new(); cand.retain(|m| seen.insert(msgs[*m].0)); }
         if r.chance(3, 5) || cand.is_empty() {
             let mut sc = vec![];
-            let (u1, _) = local_txn(&reps[i], &mut r, &ecfg, false, 3, &mut sc, &mut tag);
+            let (u1, _) = local_txn(&reps[i], &mut r, &ecfg, false, if typing { 1 } else { 3 }, &mut sc, &mut tag);
             script.push(format!("r{} txn {{{}}}", i, sc.join("; ")));
             if let Some(a) = u1.into_iter().next() { msgs.push((i, a)); delivered[i].insert(msgs.len() - 1); }
         } else {
@@ -328,23 +348,24 @@ fn c13_case(seed: u64, index: u64, rep: &mut Report) {
             let _ = reps[i].apply_v1(&msgs[m].1); reps[i].drain1(); reps[i].drain2();
             delivered[i].insert(m);
         }
-        // snapshots are taken on replica 0
+        // snapshots are taken on any replica
         if r.chance(1, 2) {
-            let s = reps[0].doc.transact().snapshot();
+            let sr = r.below(n as u64) as usize;
+            let s = reps[sr].doc.transact().snapshot();
             // a snapshot survives its own encode/decode (v1 and v2)
             let (e1, e2) = (s.encode_v1(), s.encode_v2());
             match (Snapshot::decode_v1(&e1), Snapshot::decode_v2(&e2)) {
                 (Ok(a), Ok(b)) => if a != s || b != s { fails.push(json!({"class": "snapshot-codec-roundtrip", "step": step})); },
                 _ => fails.push(json!({"class": "snapshot-codec-error", "step": step})),
             }
-            snaps.push((s, public_dump(&reps[0].doc), has_gap(&reps[0].doc), step));
-            script.push(format!("snapshot#{} of r0", snaps.len() - 1));
+            snaps.push((s, public_dump(&reps[sr].doc), has_gap(&reps[sr].doc), step, sr));
+            script.push(format!("snapshot#{} of r{}", snaps.len() - 1, sr));
         }
         // every earlier snapshot must still restore exactly
-        for (si, (s, content, gap, at)) in snaps.iter().enumerate() {
+        for (si, (s, content, gap, at, sr)) in snaps.iter().enumerate() {
             for v2 in [false, true] {
                 let enc = catch(std::panic::AssertUnwindSafe(|| {
-                    let t = reps[0].doc.transact();
+                    let t = reps[*sr].doc.transact();
                     if v2 { let mut e = yrs::updates::encoder::EncoderV2::new(); t.encode_state_from_snapshot(s, &mut e).map(|_| yrs::updates::encoder::Encoder::to_vec(e)) }
                     else { let mut e = yrs::updates::encoder::EncoderV1::new(); t.encode_state_from_snapshot(s, &mut e).map(|_| yrs::updates::encoder::Encoder::to_vec(e)) }
                 }));
@@ -434,7 +455,7 @@ fn c15_case(seed: u64, index: u64, rep: &mut Report) {
 
 pub fn run(prop: &str, tier: &str, seed: u64, workers: usize) -> Report {
     let thorough = tier == "thorough";
-    let n: u64 = match (prop, thorough) { ("C06", false) => 150, ("C06", true) => 2000, ("C08", false) => 400, ("C08", true) => 6000, ("C13", false) => 300, ("C13", true) => 4000, (_, false) => 300, (_, true) => 4000 };
+    let n: u64 = match (prop, thorough) { ("C06", false) => 1500, ("C06", true) => 20000, ("C08", false) => 1200, ("C08", true) => 12000, ("C13", false) => 1500, ("C13", true) => 20000, (_, false) => 1500, (_, true) => 20000 };
     let mut total = parallel(workers, |w, nw| {
         let mut rep = Report::default();
         for ci in 0..n {
@@ -448,9 +469,9 @@ pub fn run(prop: &str, tier: &str, seed: u64, workers: usize) -> Report {
         rep
     });
     total.notes.push(match prop {
-        "C06" => "all ordered pairs of replica states of seeded histories with out-of-order deliveries (stashes, gaps) x {encode_diff, encode_state_as_update} x {v1, v2} x {own, stale} state vector: receiver dominates sender (state vector, integrated ids, deleted ids), idempotence, self-diff no-op, exchange until fixpoint => equal",
+        "C06" => "all ordered pairs of replica states of seeded histories (replicas with and without GC) with out-of-order deliveries (stashes, gaps) x {encode_diff, encode_state_as_update} x {v1, v2} x {own, stale} state vector: receiver dominates sender (state vector, integrated ids, deleted ids), idempotence, self-diff no-op, exchange until fixpoint => equal",
         "C08" => "update pools from seeded histories (transaction updates, diffs against stale vectors, full states of replicas with gaps / GC) : merge vs sequential apply (v1, v2, duplicates, shuffled, nested), diff_updates vs apply, encode_state_vector_from_update on gap-free states; the Coq model decodes merged v1 updates and must reach the state it reaches from the inputs",
-        "C13" => "snapshots of replica 0 taken at random points of 1..3 replica histories; every earlier snapshot is restored (v1 and v2) after every later step and compared with the content recorded when it was taken; snapshot codec round trip; gc documents must refuse",
+        "C13" => "snapshots of any replica taken at random points of 1..3 replica histories (shuffled client ids; a third of the histories are single-call typing runs on text / array so that squashed runs are cut in the middle); every earlier snapshot is restored (v1 and v2) after every later step and compared with the content recorded when it was taken; snapshot codec round trip; gc documents must refuse",
         _ => "gc / no-gc twin replicas fed the same updates (v1/v2, possibly shuffled) compared after every delivery, forced gc at random points, rebuild from the gc'ed full state, mixed-gc pairs exchanged until fixpoint",
     }.to_string());
     total
